@@ -44,7 +44,7 @@ PROBES = {'C14': ['target_without_source_in_range', 'rebind_other_size', 'set_po
                   'property_missing_in_some_array', 'interpolate_after_other_property', 'h_increased_then_update', 'periodic_domain',
                   'order1_repeated', 'order1_3d', 'auto_grid', 'gradient_component', 'integer_typed_targets', 'via_sph_evaluator',
                   'evaluator_sources_replaced', 'evaluator_target_replaced', 'targets_2d_C', 'targets_2d_F', 'zero_coordinates_left_out',
-                  'only_z_given']}
+                  'only_z_given', 'flat_array_listed_last', 'second_interpolator_alive']}
 
 
 def prepare(prop, tier):
@@ -103,12 +103,22 @@ def gen(t, prop, tier):
             periodic['axes'][0] = 1
     rho_zero = int(method == 'order1' and t.bool(0.3))
 
+    flat_last = int(narr > 1 and dim > 1 and not periodic and t.bool(0.15))
+
     def make_arrays(salt):
         arrays = []
         for a in range(narr):
             pts = []
             rng = list(range(nper))
             import itertools
+            if flat_last and a == narr - 1:
+                # the array listed last is a single row along x at the lowest y (and z) of everything, like a wall
+                for i in rng:
+                    x = [(i + 0.5) * dx, 0.0, 0.0]
+                    f = lin[0] + lin[1] * x[0] if method == 'order1' else t.int(-4, 6) * 0.5 + salt
+                    pts.append([x[0], x[1], x[2], hfac * dx, dx ** dim, 0.0 if rho_zero else 1.0, f, t.int(1, 5) * 1.0])
+                arrays.append(dict(has_g=int(t.bool(0.5)), pts=pts))
+                continue
             for idx in itertools.product(*[rng if k < dim else [0] for k in range(3)]):
                 if t.bool(0.15) and not periodic:
                     continue
@@ -169,6 +179,8 @@ def gen(t, prop, tier):
     if t.bool(0.4):
         sc['tlayout'] = [t.choice([1, 2, 3, 4]), t.choice(['C', 'F'])]
     sc['omit_zero'] = int(t.bool(0.5))
+    # a second Interpolator of the same kind on other data is alive in the process while the first one is used
+    sc['second_instance'] = int(t.bool(0.2))
     return sc
 
 
@@ -382,7 +394,33 @@ def execute(sc, prop):
         violate('interpolator-raised', 'constructing the interpolator raised %r\n%s' % (e, traceback.format_exc()[-500:]))
         return dict(violations=viol, digest=0, nontrivial=False, faults={}, probes=probes, sim=0.0, inconclusive=False)
     if interp.dim != dim:
-        raise InvalidScenario('interpolator chose dim %d' % interp.dim)
+        # (the extents of the sources were checked above with the interpolator's own rule: more than 1e-3 of the total length)
+        violate('dimension-misdetected', 'the sources span %d dimensions (extents %r) but the interpolator works in %d' % (dim, ext, interp.dim))
+        return dict(violations=viol, digest=0, nontrivial=True, faults={}, probes=probes, sim=0.0, inconclusive=False)
+    if targets is None and via == 'interp':
+        tight = []
+        for c in 'xyz':
+            tight += [min(float(pa.get(c).min()) for pa in arrays), max(float(pa.get(c).max()) for pa in arrays)]
+        want_b = [tight[2 * k + j] + (-1.0 if j == 0 else 1.0) * 0.05 * (tight[2 * k + 1] - tight[2 * k]) for k in range(3) for j in range(2)]
+        got_b = [float(v) for v in np.asarray(interp.bounds).ravel()]
+        if len(got_b) != 6 or any(abs(g - w_) > 1e-12 * max(1.0, abs(w_)) for g, w_ in zip(got_b, want_b)):
+            violate('auto-grid-bounds', 'the automatic grid covers %r, the bounding box of all source arrays stretched by 5 %% is %r' % (got_b, want_b))
+            return dict(violations=viol, digest=0, nontrivial=True, faults={}, probes=probes, sim=0.0, inconclusive=False)
+    if any(len(s_.get('pts', [])) and all(r[1] == 0.0 for r in s_['pts']) for s_ in specs[1:]) and dim > 1:
+        probe('flat_array_listed_last')
+    other = None
+    if sc.get('second_instance') and via == 'interp':
+        shifted = [dict(has_g=s_.get('has_g'), pts=[[r[0] + 0.013, r[1], r[2], r[3], r[4], r[5], r[6] + 5.0, r[7]] for r in s_.get('pts', [])])
+                   for s_ in specs]
+        try:
+            other = Interpolator(_mk_arrays(shifted, dim), kernel=getattr(K, kname)(dim=dim), x=np.array([0.3, 0.6]) * L,
+                                 y=(np.array([0.3, 0.6]) * L if dim > 1 else None), z=(np.array([0.3, 0.6]) * L if dim > 2 else None),
+                                 method=method)
+            other.interpolate('f')
+            probe('second_interpolator_alive')
+        except Exception as e:
+            if not per:
+                violate('interpolator-raised', 'constructing a second interpolator raised %r' % (e,))
     lin = [float(v) for v in (sc.get('linear') or [0, 0, 0, 0])]
     linear_ok = [True]      # the sources still carry the exact linear field (order1 reproduction check)
     last_prop = [None]
